@@ -33,17 +33,21 @@ THEOREMS = [
     "Verif.C03.sum_over_ranges_eq_image",
 ]
 RULE = (
-    "corpus (F9 input, split-mode mean witness) + exhaustive small scope (kymographs: P<=3 pixels/line, <=3 lines, "
-    "k<=2 samples/pixel, per-line dead time <=2, lead-in <=1, truncation of the stream at every sample after the "
-    "first complete pixel, dt in {1,7,55}; scans: P,L in {2,3}, <=3 frames, k<=2, line dead <=1, frame dead in {0,2}, "
-    "both axis orders, truncation at every sample; timestamp_mean on every array of length <=3 over nine boundary "
-    "values of int64) + seeded random regular waves (P<=32, <=40 lines or L<=12 x <=5 frames, k<=8, dead<=20, "
-    "dt from 1 ns to 1e8 ns with half of them periods where int(1e9/(1e9/dt)) = dt-1, starts up to 2^62, photon "
-    "counts non-zero in discarded samples, reduced channel longer than the acquisition on both sides) + adversarial "
-    "int64 arrays for timestamp_mean (1-D and axis=1; span*n on both sides of 2^63) + a malformed stream (interior "
-    "discards, non-constant pixel size, no boundary, empty wave) compared with the model only. Non-trivial: a "
-    "kymograph/scan case has at least two ranges, or a truncated last line/frame, or delta != dt; a mean case has two "
-    "distinct values or needs a split."
+    "corpus (F9 input, split-mode mean witness) + malformed stream (empty wave, nothing used, no boundary, interior "
+    "discards, non-constant pixel size / line period / dead time: compared with the model only) + exhaustive small "
+    "scope [kymographs: P<=3 pixels/line, <=3 lines, k<=2 samples/pixel (thorough: P,lines<=4, k<=3), per-line dead "
+    "time <=2, lead-in <=1, the stream truncated at every sample after the first complete pixel (quick: every 2nd/3rd), "
+    "dt in {1,55} (thorough {1,7,55,110}; 55 and 110 are periods where int(1e9/(1e9/dt)) = dt-1; the dt=7 cases start "
+    "at 2^62); scans: P,L in {2,3}, <=3 frames, k<=2, line dead <=1, frame dead in {0,2}, both axis orders, metadata "
+    "frame count 0 or explicit, truncated at every sample (quick: every 3rd/5th); timestamp_mean on every array of "
+    "length <=3 over nine boundary values of int64, 4^4 arrays of length 4, 81 two-row arrays] + seeded random regular "
+    "waves (quick 1000 / thorough 20000; P<=32 and <=40 lines, or P,L<=12 and <=5 frames; k<=8, dead<=20, lead-in<=10, "
+    "half of them truncated near a line/frame/pixel edge; dt from 1 ns to 1e8 ns, a quarter of them periods whose float "
+    "round trip loses 1 ns; starts 0, 1000, 2014-epoch, 2^61..2^62; photon counts non-zero in discarded samples; the "
+    "reduced channel extends up to 4 samples beyond the acquisition on both sides; red channel absent in 20%) + "
+    "adversarial int64 arrays for timestamp_mean (quick 4000 / thorough 100000; 1-D and axis=1; span*n on both sides "
+    "of 2^63, values up to 2^63-1, negative offsets). Non-trivial: a kymograph/scan case has at least two ranges, or a "
+    "truncated last line/frame, or delta != dt; a mean case has two distinct values."
 )
 TRUSTED = [
     "IEEE double division in Lean's Float equals CPython's (delta = int(1e9/(1e9/dt)) is computed by the model in doubles; the theorems hold for every 1 <= delta <= dt and the oracle checks that bound on the implementation's ranges)",
@@ -666,8 +670,9 @@ def cases(tier, rng):
             yield {"stream": "small-scope", "op": "meanrows", "w": 2, "rows": [list(r1), list(r2)]}
 
     # ---- exhaustive small scope: kymographs, truncated at every sample
-    dts = (1, 55) if quick else (1, 7, 55)
-    for P, lines, k, dead, lead in itertools.product((1, 2, 3), (1, 2, 3), (1, 2), (0, 1, 2), (0, 1)):
+    dts = (1, 55) if quick else (1, 7, 55, 110)
+    rng3 = (1, 2, 3) if quick else (1, 2, 3, 4)
+    for P, lines, k, dead, lead in itertools.product(rng3, rng3, (1, 2) if quick else (1, 2, 3), (0, 1, 2), (0, 1)):
         full = lead + lines * (P * k + dead)
         first = lead + k
         truncs = list(range(first, full)) + [None]
@@ -689,11 +694,11 @@ def cases(tier, rng):
             yield scan_case("small-scope", 1000, 55 if flip else 3, lead, k, P, L, dead, fdead, frames, flip, 0, tr, nf_meta=0 if dead else frames)
 
     # ---- random regular waves
-    N = 250 if quick else 5000
+    N = 1000 if quick else 20000
     r = rng.fork("c03-waves")
     for i in range(N):
         sub = r.fork(i)
-        big = sub.chance(0.15)
+        big = sub.chance(0.1)
         dt = sub.choice([1, 2, sub.choice(BAD_DT), sub.choice(BAD_DT), 12800, 10**8, sub.randint(1, 10**8), sub.randint(1, 10**8) // 55 * 55 + 55])
         start = sub.choice([0, 1000, 1388534400000000000 + sub.randint(0, 10**15), sub.randint(2**61, 2**62), 2**62])
         k = sub.choice([1, 1, 2, 3, sub.randint(1, 8)])
@@ -724,7 +729,7 @@ def cases(tier, rng):
             yield scan_case("random", start, dt, lead, k, P, L, dead, fdead, frames, sub.chance(0.5), tail, tr, nf_meta=sub.choice([0, frames]), **extra)
 
     # ---- adversarial int64 arrays for timestamp_mean
-    M = 1500 if quick else 40000
+    M = 4000 if quick else 100000
     r = rng.fork("c03-mean")
     for i in range(M):
         sub = r.fork(i)
